@@ -23,7 +23,7 @@ type Cell struct {
 	CRL       string `json:"crl"`        // none | listed | notlisted | unavailable
 	CDPStrict bool   `json:"cdp_strict"`
 	Disk      bool   `json:"disk"`
-	Shape     int    `json:"shape"`      // 0 [leaf,root]  1 [leaf,int,root]  2 two chains
+	Shape     int    `json:"shape"`      // 0 [leaf,root]  1 [leaf,int,root]  2 two chains  3 [leaf] alone (pinned in the trust pool)
 	// drawn details
 	Source   string `json:"source"`    // where the CRL comes from for listed/notlisted: cdp | crl_url | crl_file
 	SerialHex string `json:"serial"`
@@ -67,7 +67,7 @@ func cells(seed int, refused bool) []Cell {
 				for _, cr := range []string{"none", "listed", "notlisted", "unavailable"} {
 					for _, cs := range []bool{false, true} {
 						for _, disk := range []bool{false, true} {
-							for shape := 0; shape < 3; shape++ {
+							for shape := 0; shape < 4; shape++ {
 								c := Cell{Mode: mode, OCSP: oc, AIAStrict: as, CRL: cr, CDPStrict: cs, Disk: disk, Shape: shape}
 								c.Source = "cdp"
 								if cr == "listed" || cr == "notlisted" {
@@ -110,7 +110,7 @@ func runCell(c Cell, x *ev.Ctx) error {
 	root := gen.Issue(gen.CertSpec{Key: "p256b", Subject: gen.CN(name + " root"), SerialHex: "1000", IsCA: true}, nil)
 	ca := root
 	var root2, caX *gen.Cert
-	if c.Shape >= 1 {
+	if c.Shape == 1 || c.Shape == 2 {
 		ca = gen.Issue(gen.CertSpec{Key: c.CAKey, Subject: gen.CN(name + " ca"), SerialHex: "1001", IsCA: true}, root)
 	} else {
 		ca = gen.Issue(gen.CertSpec{Key: c.CAKey, Subject: gen.CN(name + " ca"), SerialHex: "1001", IsCA: true}, nil)
@@ -141,6 +141,8 @@ func runCell(c Cell, x *ev.Ctx) error {
 		chains = [][]*x509.Certificate{{leaf.Cert, ca.Cert}}
 	case 1:
 		chains = [][]*x509.Certificate{{leaf.Cert, ca.Cert, root.Cert}}
+	case 3:
+		chains = [][]*x509.Certificate{{leaf.Cert}}
 	default:
 		chains = [][]*x509.Certificate{{leaf.Cert, ca.Cert, root.Cert}, {leaf.Cert, caX.Cert, root2.Cert}}
 	}
@@ -202,7 +204,13 @@ func runCell(c Cell, x *ev.Ctx) error {
 	if c.Mode != "ocsp_only" || id%2 == 0 {
 		cfg["crl_config"] = crlCfg
 	}
-	cfg["ocsp_config"] = map[string]any{"ocsp_aia_strict": c.AIAStrict}
+	ocspCfg := map[string]any{"ocsp_aia_strict": c.AIAStrict}
+	if c.Shape == 3 {
+		// the issuer is not part of the verified chain: it is known through the trusted certificate files
+		crlCfg["trusted_signature_certs_files"] = []string{caFile}
+		ocspCfg["trusted_responder_certs_files"] = []string{caFile}
+	}
+	cfg["ocsp_config"] = ocspCfg
 	raw, _ := json.Marshal(cfg)
 	v, err := world.LoadValidatorJSON(raw)
 	if err != nil {
@@ -250,7 +258,7 @@ func runCell(c Cell, x *ev.Ctx) error {
 var spec = ev.Spec[Cell]{
 	ID:  "C03",
 	Run: runCell,
-	Rule: "exhaustive truth table: mode {unset, prefer_ocsp, prefer_crl, ocsp_only, crl_only, disabled} x OCSP {no AIA, good, revoked, unavailable} x ocsp_aia_strict x CRL {none known, listed, not listed, CDP unavailable} x crl_cdp_strict x storage x verified-chain shape {[leaf,ca], [leaf,ca,root], two chains with a cross certificate} = 2304 cells, each run through the real module (JSON config -> caddy LoadModuleByID -> VerifyClientCertificate) against scripted CRL and OCSP origins; CRL source (CDP / crl_urls / crl_files), serial width, CA key type, list size and the way 'unavailable' is realised are drawn from VERIF_SEED. Oracle: rejected iff (OCSP enabled and (revoked or (unavailable and strict))) or (CRL enabled and (listed or (CDP unavailable and strict))); side effects from the origin hit logs and the file system: disabled => no request and work_dir not even created, ocsp_only => no CRL request, crl_only => no OCSP request, both prefer_* with OCSP good => the CDP CRL was requested. Non-trivial: every cell except those with neither AIA nor CRL.",
+	Rule: "exhaustive truth table: mode {unset, prefer_ocsp, prefer_crl, ocsp_only, crl_only, disabled} x OCSP {no AIA, good, revoked, unavailable} x ocsp_aia_strict x CRL {none known, listed, not listed, CDP unavailable} x crl_cdp_strict x storage x verified-chain shape {[leaf,ca], [leaf,ca,root], two chains with a cross certificate, [leaf] alone with the issuer only in the trusted certificate files} = 3072 cells, each run through the real module (JSON config -> caddy LoadModuleByID -> VerifyClientCertificate) against scripted CRL and OCSP origins; CRL source (CDP / crl_urls / crl_files), serial width, CA key type, list size and the way 'unavailable' is realised are drawn from VERIF_SEED. Oracle: rejected iff (OCSP enabled and (revoked or (unavailable and strict))) or (CRL enabled and (listed or (CDP unavailable and strict))); side effects from the origin hit logs and the file system: disabled => no request and work_dir not even created, ocsp_only => no CRL request, crl_only => no OCSP request, both prefer_* with OCSP good => the CDP CRL was requested. Non-trivial: every cell except those with neither AIA nor CRL.",
 }
 
 func TestMain(m *testing.M) {
